@@ -58,3 +58,15 @@ package js_parser
 //@   loop 0 invariant forall k int :: 0 <= k && k <= rangeindex ==> injectedFileEq(a.injectedFiles[k], b.injectedFiles[k])
 //@   loop 1 invariant forall m int :: 0 <= m && m <= rangeindex ==> x.Exports[m] == y.Exports[m]
 //@   loop 1 invariant -1 <= rangeindex && rangeindex < len(x.Exports) || (len(x.Exports) == 0 && rangeindex == -1)
+
+// ----------------------------------------------------------------------------------------------
+// C16: the printer panics ("Cannot encode identifier: Unicode escapes are unsupported") when it has to
+// escape a code point above U+FFFF in an identifier and the target has no \u{...} escapes. The parser
+// therefore reports such names up front with checkForUnrepresentableIdentifier (declareSymbol, import and
+// export aliases, unbound names). Two kinds of names taken from the source bypass declareSymbol and are
+// turned into symbols directly: statement labels and the names of class expressions. At those sites the
+// name must have been passed to checkForUnrepresentableIdentifier (constants, generated names and names
+// of existing symbols are harmless by construction). The rule is restricted to these functions because a
+// general "every newSymbol" rule cannot see checks made in callers (27 of 60 sites undecided: not claimed).
+//@ checked label-name-representable C16: site=call newSymbol arg1=ast.SymbolLabel arg2 ; by=call checkForUnrepresentableIdentifier arg2 ; in=js_parser ; scenario=nonbmp_identifier
+//@ checked class-expr-name-representable C16: site=call newSymbol arg2 ; by=call checkForUnrepresentableIdentifier arg2 ; in=js_parser ; only=(*parser).parseClassExpr ; scenario=nonbmp_identifier
